@@ -153,11 +153,11 @@ inductive Holder (α : Type) where
   deriving Repr, BEq, DecidableEq
 
 /-- The class of a holder. -/
-inductive Kind where
+inductive HKind where
   | dense | sparse | kruskal | tucker | sum | tenmat | sptenmat
   deriving Repr, BEq, DecidableEq
 
-def Holder.kind : Holder α → Kind
+def Holder.kind : Holder α → HKind
   | .dense _ => .dense
   | .sparse _ => .sparse
   | .kruskal _ => .kruskal
@@ -242,7 +242,7 @@ def runChain [Add α] [Mul α] [Zero α] [BEq α] : List Conv → Holder α → 
     | .ok h' => runChain cs h'
 
 /-- The class a conversion produces from a class (`none`: the class has no such method). -/
-def Conv.target : Conv → Kind → Option Kind
+def Conv.target : Conv → HKind → Option HKind
   | .full, .tenmat => none
   | .full, .sptenmat => some .tenmat
   | .full, _ => some .dense
@@ -276,7 +276,7 @@ def Conv.argsValid (n : Nat) : Conv → Bool
 
 /-- A chain is well-typed from class `k` on an `n`-way operand: every method exists on the
 class it is called on and every mode split is acceptable. -/
-def chainValid (n : Nat) : List Conv → Kind → Bool
+def chainValid (n : Nat) : List Conv → HKind → Bool
   | [], _ => true
   | c :: cs, k =>
     match c.target k with
